@@ -428,7 +428,7 @@ func init() {
 		Bubble: true,
 		Cases: func(tier string) int {
 			if tier == "thorough" {
-				return 6000
+				return 20000
 			}
 
 			return 420
